@@ -320,6 +320,21 @@ Proof.
     f_equal. apply D_perm. apply Permutation_map. exact HP.
 Qed.
 
+(* ... and at every depth *)
+Theorem R_tperm G t : forall t', tperm t t' -> R G t = R G t'.
+Proof.
+  induction t as [ds ks IH] using tree_ind'. intros t' H. inversion H as [a l l' l'' HF HP]; subst.
+  assert (Hm : map (R G) ks = map (R G) l').
+  { clear H HP. induction HF as [|k k' r r' Hk _ IHr]; [reflexivity|].
+    inversion IH as [|? ? Hk0 Hr0]; subst. cbn [map]. rewrite (Hk0 k' Hk), (IHr Hr0). reflexivity. }
+  rewrite <- (R_perm_children G ds l' l'' HP).
+  destruct HF as [|k k' r r' Hk HF]; [reflexivity|].
+  change (vmul G (pvec G ds) (logS G (map (R G) (k :: r))) = vmul G (pvec G ds) (logS G (map (R G) (k' :: r')))).
+  rewrite Hm. reflexivity.
+Qed.
+Theorem root_R_tperm G f f' : Forall2 tperm f f' -> forall f'', Permutation f' f'' -> root_R G f = root_R G f''.
+Proof. intros HF f'' HP. unfold root_R. apply R_tperm. econstructor; eassumption. Qed.
+
 (* several samples: each row is the single-sample statement on the projected tree *)
 Lemma nth_map_seq {X} (F : nat -> X) n s d : (s < n)%nat -> nth s (map F (seq 0 n)) d = F s.
 Proof.
